@@ -251,4 +251,26 @@ example :
       [([110], percentEncode (fun b => b = 37 || b = 47) [97, 47, 37, 195, 169]), ([120], [48]), ([105, 100], [50, 53, 53])]
       = .ok [([105, 100], .s (.int 255)), ([110], .s (.str [97, 47, 37, 195, 169]))] := by decide
 
+
+/-- **C15 (10) form parse ∘ form serialise = id**: any list of name/value pairs of text (UTF-8),
+    written the way `form_urlencoded::Serializer` (browsers, `serde_html_form::to_string`) writes
+    them, is read back by `form_urlencoded::parse` as exactly the same list, in order — reserved
+    characters (`&`, `=`, `+`, `%`, …), spaces, multi-byte characters and empty strings included. -/
+theorem formParse_formSerialize (pairs : List (List Nat × List Nat))
+    (hb : ∀ kv ∈ pairs, (∀ b ∈ kv.1, b < 256) ∧ (∀ b ∈ kv.2, b < 256))
+    (hu : ∀ kv ∈ pairs, utf8Valid kv.1 = true ∧ utf8Valid kv.2 = true) :
+    formPairs (formSerialize pairs) = pairs := by
+  unfold formPairs
+  rw [formPairsRaw_formSerialize pairs hb, List.map_map]
+  have : ∀ kv ∈ pairs, ((fun kv : List Nat × List Nat => (formDecode kv.1, formDecode kv.2)) ∘
+      (fun kv => (byteSerialize kv.1, byteSerialize kv.2))) kv = id kv := by
+    intro kv hkv
+    simp only [Function.comp, id]
+    rw [formDecode_serialize_text kv.1 (hb kv hkv).1 (hu kv hkv).1,
+        formDecode_serialize_text kv.2 (hb kv hkv).2 (hu kv hkv).2]
+  rw [List.map_congr_left this, List.map_id]
+
+example : formPairs (formSerialize [([97, 38], [49, 32, 43, 61]), ([], []), ([195, 169], [37, 50, 53])])
+    = [([97, 38], [49, 32, 43, 61]), ([], []), ([195, 169], [37, 50, 53])] := by decide
+
 end Pxv.ReqData
